@@ -379,9 +379,17 @@ package object
 // one Env, and an iterator's Env only from its PanFunc, so this is a property of the store fixed when it is
 // created (assumed; not checked at allocation).
 //@ invariant assumed object.PanFunc: self.Env != nil && (iterStore(self.Env.Store) <==> self.FuncKind == IterFunc)
-//@ props C03 C14 C19
+//@ props C03 C14 C19 C13
 //@ func object.NewEnv() res
 //@   ensures res != nil && fresh(res) && res.Store != nil && fresh(res.Store) && res.outer == nil && len(res.Store) == 0
+//@   assigns nothing
+// capturing an error keeps its kind and message (the wrapper holds a copy)
+//@ func object.WrapErr(err) res
+//@   requires err != nil
+//@   ensures  res != nil && fresh(res) && res.PanErr.ErrKind == err.ErrKind && res.PanErr.Msg == err.Msg
+//@   assigns  nothing
+//@ func object.NewPanIter(f, env) res
+//@   ensures res != nil && fresh(res) && res.FuncWrapper == f && res.FuncKind == IterFunc && res.Env == env
 //@   assigns nothing
 //@ func object.NewEnclosedEnv(e) res
 //@   ensures res != nil && fresh(res) && res.Store != nil && fresh(res.Store) && res.outer == e && len(res.Store) == 0
@@ -391,10 +399,12 @@ package object
 //@   requires env != nil
 //@   ensures  res != nil && fresh(res) && res.Store != nil && fresh(res.Store) && res.outer == env.outer
 //@   ensures  forall h uint64 :: {res.Store[h]} has(res.Store, h) ==> has(env.Store, h) && res.Store[h] == env.Store[h]
+//@   ensures  forall h uint64 :: {has(env.Store, h)} has(env.Store, h) ==> has(res.Store, h)
 //@   assigns  nothing
 //@   loop 1 invariant newStore != nil && fresh(newStore) && (forall h uint64 :: {newStore[h]} has(newStore, h) ==> has(env.Store, h) && newStore[h] == env.Store[h])
+//@   loop 1 invariant forall h uint64 :: {visited(1, h)} visited(1, h) ==> has(newStore, h)
 // lookup: innermost scope first, then outwards
-//@ traced: object.(*Env).Get
+//@ traced: object.(*Env).Get, object.(*Env).Set
 //@ func object.(*Env).Get(e, h) res, ok
 //@   requires e != nil && e.Store != nil
 //@   ensures  has(e.Store, h) ==> ok && res == e.Store[h] && ncalls == 0
